@@ -3,6 +3,7 @@
   recorded from the real code. Imports the (core-only) model, so it links as a native executable.
 -/
 import GFO.Model.Proto
+import GFO.Model.Shared
 open GFO GFO.Proto
 
 /-- one recorded backend interaction of the real run -/
@@ -44,6 +45,7 @@ structure M where
   warm : List (Value × F) := []
   steps : Array (Res × Rat) := #[]             -- objective oracle by global step index
   byCall : Array (Res × Rat) := #[]            -- objective oracle by objective-call index (if non-empty)
+  sdict : Dict Res := []                       -- shared manager dict (C06)
 
 def M.obj (m : M) : Obj := fun callIdx stepIdx _ =>
   if m.byCall.size > 0 then m.byCall.getD callIdx ({ score := .nan, metrics := [("ORACLE", "exhausted")] }, 0)
@@ -182,6 +184,21 @@ def exec (m : M) (cmd : String) : P (M × List String) := do
     let dur ← pRat; let r ← pRes
     pure ({ m with byCall := m.byCall.push (r, dur) }, ["ok"])
   | "drun" => pure (runCall m)
+  -- ---------------- shared manager dict (GFO.Model.Shared)
+  | "sreset" => pure ({ m with sdict := [] }, ["ok"])
+  | "sop" => do
+    let kind ← tok
+    let k ← pN m.sp.dims.length pInt
+    let op : SOp ← (if kind = "c" then pure (SOp.contains 0 k) else if kind = "g" then pure (SOp.get 0 k)
+      else do let r ← pRes; pure (SOp.set 0 k r))
+    let (d', resp) := sExec m.sdict op
+    let out := match resp with
+      | .bool b => "bool:" ++ showBool b
+      | .val v => "val:" ++ showRes v
+      | .keyError => "keyerror"
+      | .unit => "unit"
+    pure ({ m with sdict := d' }, [out])
+  | "sdict" => pure (m, [showDict showRes m.sdict])
   | "dstate" =>
     pure (m, [s!"state posL={showList showPos m.d.posL} scoreL={showList showF m.d.scoreL} shared={showDict showRes m.d.shared} clock={showRat m.d.clock}"])
   | c => throw s!"unknown command {c}"
